@@ -15,6 +15,8 @@ mod rules;
 
 pub use explain::Explain;
 pub use optimizer::{Config, Optimizer};
+#[cfg(feature = "verif")]
+pub use optimizer::verif_rule_inventory;
 pub use rules::{ExprAnalysis, Statistics, TypeError, TypeSchemaAnalysis};
 
 // Alias types for our language.
